@@ -3,7 +3,7 @@
    The screen is what the independent interpreter TermGrid makes of the characters written. *)
 From RichModel Require Import Prelude Cells TermGrid Live SpecLive.
 From RichGen Require Import LiveCodes.
-From RichProofs Require Import TermGridP LiveP CursorP LiveP2 LiveP3 LiveP4 LiveP5.
+From RichProofs Require Import TermGridP LiveP CursorP LiveP2 LiveP3 LiveP4 LiveP5 LiveP6.
 From RichProofs.bridge Require BridgeLive.   (* tie 1 (T2): LiveRender.position_cursor/restore_cursor regenerated statement by statement *)
 
 (* (1) erase_clears: position_cursor for a frame of h rows, interpreted with the cursor on the last
@@ -60,7 +60,7 @@ Proof. exact screen_invariant. Qed.
 Print Assumptions C10_screen_invariant.
 
 Example C10_screen_invariant_nonvacuous :
-  let c := mkCfg false false OEllipsis 12 3 None None true false false false false false false false in
+  let c := mkCfg false false OEllipsis 12 3 None None true false false false false false false false false in
   ops_ok c (st0 c (w_lines 2))
     [Print (w_lines 1); Start; Refresh; Print (w_lines 4); Update (w_lines 7) true; Log (w_lines 1);
      Update [] false; Print (w_lines 1); Update (w_lines 1) true; Start; Stop; Print (w_lines 1)] = true.
@@ -112,6 +112,41 @@ Theorem C10_block_screen_any_fault : forall c f0 pre body, block_ok c f0 pre bod
   /\ cursor_vis_ok_b (Hn c) (started s) (out s) = true.
 Proof. exact block_screen. Qed.
 Print Assumptions C10_block_screen_any_fault.
+
+(* (2c) Histories that GO ON after an exception (the caller catches it): every operation runs, whatever
+   raised before.  In particular the SAME display started again after a stop() whose final refresh
+   raised: its frame is still on the screen (no final new line), the next start() takes it over, the next
+   draw erases it, and -- because stop() restores vertical_overflow in a `finally` (T3 fact
+   live_stop_restores_in_finally) -- tall frames of the new session are cropped again.  Side condition
+   ops_ok2 = ops_ok per operation, plus: nothing is printed onto a frame parked by a faulted stop(). *)
+Theorem C10_screen_invariant_resilient : forall c f0 ops, ops_ok2 c (st0 c f0) ops = true ->
+  let s := run_all c (st0 c f0) ops in
+  view_ok_b (Hn c) (g_live s) (g_printed s) (g_shown s) (out s) = true
+  /\ cursor_vis_ok_b (Hn c) (started s) (out s) = true
+  /\ cursor_ok_b (Hn c) (all_chunks c (st0 c f0) ops) = true.
+Proof. exact screen_invariant_resilient. Qed.
+Print Assumptions C10_screen_invariant_resilient.
+
+Example C10_resilient_nonvacuous :
+  forallb (fun k => ops_ok2 (rs_fault_cfg false k true) (st0 (rs_fault_cfg false k true) (w_lines 2)) rs_fault_ops
+                    && ops_ok2 (rs_fault_cfg true k true) (st0 (rs_fault_cfg true k true) (w_lines 2)) rs_fault_ops)
+          (seq 0 8) = true.
+Proof. exact resilient_nonvacuous. Qed.
+
+(* the restore written after the refresh instead of in a finally (seed C10-r3m3): a fault in stop()
+   leaves "visible" behind, the tall frame of the next session is not cropped and cannot be erased *)
+Theorem C10_restore_not_in_finally_refuted :
+  let c := rs_fault_cfg false 1 false in
+  view_of c (run_all c (st0 c (w_lines 2)) rs_fault_ops) = false.
+Proof. exact restore_not_in_finally_refuted. Qed.
+
+(* the repairs the generator and the side conditions rely on are in the code under test (a regression of
+   any of them breaks this obligation instead of silently shrinking what is generated) *)
+Example C10_repairs_in_place :
+  live_stop_restores_overflow = true /\ live_stop_restores_in_finally = true /\ live_stop_resets_shape = true
+  /\ progress_stop_resets_shape = true /\ live_stop_visible_unless_transient = true
+  /\ live_transient_final_room = true /\ live_render_crops_to_page = true.
+Proof. repeat split. Qed.
 
 Example C10_any_fault_nonvacuous :
   forallb (fun k => block_ok (fx_cfg false true (Some k) None) (w_lines 2) [w_lines 1] fx_body
@@ -176,7 +211,7 @@ Proof. exact block_propagates. Qed.
 Print Assumptions C10_exception_propagates.
 
 Example C10_exception_propagates_nonvacuous :
-  let c := mkCfg false true OEllipsis 12 4 (Some 2%nat) None true false false false false false false false in
+  let c := mkCfg false true OEllipsis 12 4 (Some 2%nat) None true false false false false false false false false in
   fired c (fst (run_block c (w_lines 2) [w_lines 1] [Refresh; Print (w_lines 1); Refresh; Print (w_lines 1)])) = true.
 Proof. vm_compute. reflexivity. Qed.
 
